@@ -223,8 +223,45 @@ def run(tier, seed, replay=None):
                     260 if tier == "quick" else 600, NONTRIVIAL)
     K.random_family(ctx, PID, "two_origins", "lossy", range(base, base + (2 if tier == "quick" else 8)), 260, NONTRIVIAL,
                     settings={"max_joined_circuits": 2, "max_relay_early": 3}, max_joined=2, max_early=3)
+    # the join limit at its boundary: exactly `limit` entries, then one more create
+    for limit in ((1, 2) if tier == "quick" else (1, 2, 3, 4)):
+        lim = []
+        for goal in (1, 2):
+            tr, hdr_l = join_limit(ctx, seed * 50 + limit * 3 + goal, limit, goal)
+            lim.append(tr)
+        K.validate_family(ctx, PID, lim, "two_origins", hdr_l, "join-limit %d" % limit, NONTRIVIAL | {"CreateCircuit"},
+                          max_joined=limit)
     bg.collect(ctx)
     return ctx.finish()
+
+
+def join_limit(ctx, seed, limit, goal):
+    """the two originators fill the only exit up to its limit, ask for more (refused), free one entry (accepted again)"""
+    w = R.world("two_origins", seed, settings={"max_joined_circuits": limit})
+    try:
+        def settle(ms):
+            w.run_until(w.now_ms() + ms)
+        made = []
+        for i in range(limit + 2):
+            o = ("o", "o2")[i % 2]
+            ev = w.create_circuit(o, goal)
+            if ev is not None:
+                made.append((o, max(c["cid"] for c in ev["post"]["circ"][o])))
+            settle(3000)
+        peak = max(len(w.ov[n].relay_from_to) + len(w.ov[n].exit_sockets) for n in w.names)
+        ctx.note("join_limit_peak_%d_g%d" % (limit, goal), peak)
+        ready = [(o, c) for o, c in made if w.real_cid(c) in w.ov[o].circuits and w.ov[o].circuits[w.real_cid(c)].state == "READY"]
+        if ready:
+            o, c = ready[0]
+            w.remove_circuit(o, c, True)
+            settle(12000)
+            w.create_circuit("o2" if o == "o" else "o", goal)
+            settle(12000)
+        tr = {"events": w.events, "topology": "two_origins", "seed": seed, "profile": "join-limit %d g%d" % (limit, goal)}
+        K.check_escapes(ctx, w, tr, "join-limit")
+        return tr, w.header()
+    finally:
+        w.close()
 
 
 def _leak_relay(t):
